@@ -370,6 +370,76 @@ def _final(row: Row, field: str) -> T.Optional[str]:
     return norm(v) if v is not None else None
 
 
+def _field_deps(f: Facts) -> T.Dict[str, T.Set[str]]:
+    """For every parser field (and every operand of a NamedTuple stored in one, `plan.late`): the parser fields its assigned
+    values read, anywhere in the class.  Used to refuse a foreign atom that may be correlated with a reference atom."""
+    deps: T.Dict[str, T.Set[str]] = {}
+    for fn in f.mod.methods(PARSER).values():
+        for st in walk_no_nested(fn):
+            tgt = val = None
+            if isinstance(st, ast.Assign) and len(st.targets) == 1:
+                tgt, val = st.targets[0], st.value
+            elif isinstance(st, ast.AugAssign):
+                tgt, val = st.target, st.value
+            c = attr_chain(tgt) if tgt is not None else None
+            if not c or not c.startswith('self.') or val is None:
+                continue
+            fld = c[5:]
+
+            def reads(e: ast.AST) -> T.Set[str]:
+                return {(attr_chain(n) or '')[5:].split('.')[0] for n in ast.walk(e) if isinstance(n, ast.Attribute) and (attr_chain(n) or '').startswith('self.')} - {''}
+            ct = f.ctor(val)
+            if ct is not None and not ct[2]:
+                deps.setdefault(fld, set())
+                for k, op in ct[1].items():
+                    deps.setdefault(f'{fld}.{k}', set()).update(reads(op))
+            else:
+                deps.setdefault(fld, set()).update(reads(val) - {fld.split('.')[0]} - {x for x in f.tuples} - {n for n in f.states})
+    return deps
+
+
+def _foreign(f: Facts) -> T.Callable[[Atom, T.List[Atom]], T.Optional[str]]:
+    """Admit an atom outside the reference vocabulary as a free input when it is the truth / None-ness of a plain `self.<field>[.<attr>]`
+    read of entry state, no other atom of the table reads the same chain, and neither it nor a reference atom's field is assigned from
+    the other (`yaml_lineno := lineno`): then it can take both values independently of the reference atoms, and a row that lets it
+    change an outcome the reference fixes differs from the reference whatever the atom means."""
+    deps = _field_deps(f)
+
+    def chains(a: Atom) -> T.Set[str]:
+        out: T.Set[str] = set()
+        for x in a.args:
+            if isinstance(x, str):
+                try:
+                    e = ast.parse(x, mode='eval').body
+                except SyntaxError:
+                    continue
+                out |= {attr_chain(n) or '' for n in ast.walk(e) if isinstance(n, ast.Attribute)} - {''}
+        return out
+
+    def admit(a: Atom, others: T.List[Atom]) -> T.Optional[str]:
+        t = _truthy(a)
+        if t is None:
+            return None
+        c = attr_chain(t[0])
+        if c is None or not c.startswith('self.') or c.count('.') > 2:
+            return None
+        key = c[5:]
+        if key.split('.')[0] not in FIELDS:
+            return None
+        mine = deps.get(key, set())
+        for b in others:
+            for oc in chains(b):
+                if not oc.startswith('self.'):
+                    continue
+                if oc == c:
+                    return None                       # the same value is read by another atom: possibly correlated
+                other, root, oroot = oc[5:], key.split('.')[0], oc[5:].split('.')[0]
+                if oroot != root and (oroot in mine or root in deps.get(other, set()) or root in deps.get(oroot, set())):
+                    return None                       # one is assigned from the other somewhere in the class
+        return f'free: {c[5:]} is set'
+    return admit
+
+
 class Diff(T.NamedTuple):
     rule: str
     func: str
@@ -427,7 +497,8 @@ def _split(m: Model, table: tables.Table, bad: T.List[T.Tuple[Row, T.Any, T.Any,
            rule_of: T.Dict[str, str], n: int, what: T.Dict[str, str]) -> None:
     """Attribute component-wise differences of (got, want) dicts to rules; record one ok per rule when clean."""
     hit: T.Set[str] = set()
-    for row, got, want, view in bad:
+    # witness order: worlds in which the free (foreign) inputs are unset first - the plainest entry state
+    for row, got, want, view in sorted(bad, key=lambda b: sum(1 for k, v in b[3].items() if k.startswith('free:') and v)):
         for part in want:
             if got.get(part) != want[part]:
                 rule = rule_of[part]
@@ -829,7 +900,7 @@ def _check_small(m: Model) -> None:
         fv = r.final.get('self.version')
         return {'events': names, 'version': None if fv is None else ('int(version group)' if _is_int_of(f, fv, 'version') else short(fv, 50)), 'leaves by': r.outcome[0]}
     extra = [canon(_e('self.lineno + 1 == 1'), True)[0], canon(_e(f'int(self.{sec.regex}.match({s.line_def}).group({vidx})) < 13'), True)[0]]
-    n, bad, _ = compare(tab, sem, ref, got, extra)
+    n, bad, _ = compare(tab, sem, ref, got, extra, foreign=_foreign(f))
     _split(m, tab, bad, {'events': 'C18.R2', 'version': 'C18.R1', 'leaves by': 'C18.R2'}, n,
            {'C18.R1': 'the recorded version (gates YAML)', 'C18.R2': 'events (only on line 1, only >= 13)'})
     _untouched(m, tab, {'state': 'C18.R1', 'num_tests': 'C18.R3', 'last_test': 'C18.R3', 'highest_test': 'C18.R3'})
@@ -887,7 +958,7 @@ def _check_eof(m: Model) -> None:
         return {'events': _names(_events(f, r)), 'fields written': sorted(r.final)}
     extra = [canon(_e(t), True)[0] for t in ('self.state == self._YAML', 'self.bailed_out', 'self.plan', 'self.num_tests == self.plan.num_tests',
                                              'self.highest_test == self.num_tests')]
-    n, bad, _ = compare(tab, sem, ref, got, extra)
+    n, bad, _ = compare(tab, sem, ref, got, extra, foreign=_foreign(f))
     _split(m, tab, bad, {'events': 'C18.R2', 'fields written': 'C18.R2'}, n,
            {'C18.R2': 'errors (open YAML block; silent after bail-out; plan/count mismatch; duplicate/missing numbers)'})
 
@@ -1690,6 +1761,10 @@ def r5(ctx: RuleCtx) -> None:
             return f'exit status>={th[0]}', th[1]
         if a.kind == 'truth' and a.args[0] == 'self.res.is_bad()':
             return 'already bad', False
+        if a.kind in ('is', 'cmp') and 'self.res' in a.args and (a.kind == 'is' or a.args[0] == 'eq'):
+            other = [x for x in a.args[-2:] if x != 'self.res']
+            if len(other) == 1 and _enum(other[0]):
+                return f'verdict is {_enum(other[0])}', False
         return None
 
     def cgot(r: Row, v: T.Dict[str, T.Optional[bool]]) -> T.Any:
@@ -1697,12 +1772,21 @@ def r5(ctx: RuleCtx) -> None:
         return 'unchanged' if fin is None else (_enum(fin) or '?' + short(fin, 40))
     crows = _all_rows(ctab, csem, cgot, [canon(_e('self.returncode == 0'), True)[0], canon(_e('self.res.is_bad()'), True)[0]], lambda v: True)
     cm: T.Dict[str, ast.AST] = {}
+    # atoms on self.res are decided over the members the TestResult enum declares (finite declared domain)
+    tr = mod.cls('TestResult')
+    declared = [t.id for st in tr.body if isinstance(st, ast.Assign) for t in st.targets if isinstance(t, ast.Name) and not t.id.startswith('_')]
+    ctx.floor('TestResult members', len(declared), 9)
+    declared.sort(key=lambda x: (x not in ('SKIP', 'OK', 'EXPECTEDFAIL'), x))     # witnesses: the results a TAP run can end with first
     for r, g, v in crows:
-        if v.get('exit status 0') or v.get('already bad'):
-            if g != 'unchanged':
-                cm.setdefault(f'exit status {"0" if v.get("exit status 0") else "non-zero"}, verdict {"bad" if v.get("already bad") else "not bad"}: self.res is changed to {g}', cfn)
-        elif g not in bad_set:
-            cm.setdefault(f'non-zero exit status with a verdict that is not bad: self.res stays {g}; a non-zero exit must be reported bad', cfn)
+        cands = [x for x in declared if v.get('already bad') in (None, x in bad_set)
+                 and all(val is None or val == (x == k[len('verdict is '):]) for k, val in v.items() if k.startswith('verdict is '))]
+        for x in cands:
+            if v.get('exit status 0') or x in bad_set:
+                if g != 'unchanged':
+                    cm.setdefault(f'exit status {"0" if v.get("exit status 0") else "non-zero"}, self.res is {x}: self.res is changed to {g}', cfn)
+            elif g not in bad_set:
+                cm.setdefault(f'non-zero exit status while self.res is {x} (not bad): self.res stays {x if g == "unchanged" else g}; '
+                              f'a non-zero exit must be reported bad', cfn)
     ctx.floor('complete() worlds', len(crows), 4)
     for msg, node in cm.items():
         ctx.violation(mod, cq, 'exit status fold', msg, node)
